@@ -159,3 +159,20 @@ CLAIMED['C02'] = {
     'design_ref': '0.2, 8.2', 'technique': GEN + '; composition lemmas; bounded stand-in for the codec',
     'note': TB + 'engine.io delivers the frames of one connection losslessly and in order (assumed); Packet/MsgPackPacket encode-decode round trip is not proved (bounded over a '
                  'finite packet grammar, reported separately); with async_handlers=True handlers are STARTED in arrival order, completion order is not claimed; concurrent emitters excluded by the property.'}
+
+# ---- second refresh (functions added late in the build)
+CLAIMED['C08']['text'] = ('Unbounded proof of the client-side bookkeeping: connect() (recorded arguments, transport failure reported to connect_error per requested namespace, '
+                          'the wait for the namespaces under arbitrary interference of the packet-handling thread, success only when exactly the requested namespaces are '
+                          'connected, the failure path leaving the client fully disconnected - one defect found there and repaired, 66e1809), _handle_eio_connect (one CONNECT per '
+                          'requested namespace carrying the auth value or the result of one call of the auth callable), _handle_eio_message, _handle_connect, _handle_disconnect, '
+                          '_handle_error, _handle_eio_disconnect, disconnect(), shutdown(), _handle_reconnect (re-connects with the recorded arguments), emit namespace guard. '
+                          'One known finding (DISCONNECT for a namespace that is not connected runs the handler), pinned by an upstream test and therefore recorded, not repaired.')
+CLAIMED['C08']['note'] = TB + ('connect(): namespaces given explicitly (string or list; the default "every namespace with a handler" is outside the proof), retry=False; engine.io '
+                               'connect() either raises ConnectionError(msg[, info]) or runs the connect handler once before returning, disconnect() runs the disconnect handler '
+                               'synchronously once (read from engine.io 4.14).')
+CLAIMED['C10']['note'] = TB + ('random.random() in [0,1); Event.wait(timeout) model; _handle_reconnect sees connect() through its call-site summary (records the attempt; returns or '
+                               'raises ConnectionError) while the body of connect() is verified separately; real arithmetic for delays (no floating point rounding); shutdown() under contract.')
+CLAIMED['C16']['note'] = TB + 'engine.io get_session returns one dict per live connection; the session() context manager (__enter__/__exit__, sync and asyncio) is under contract.'
+CLAIMED['C19']['note'] = TB + ('handlers of one client run one after another (engine.io read loop); Event.set/clear/wait are atomic; the arrival instant of an event is the '
+                               'signal (input_event.set()) of the catch-all handler; SimpleClient.connect()/disconnect() are under contract (what is registered, on which namespace, '
+                               'with which arguments the transport-level client is created and connected).')
